@@ -359,6 +359,39 @@ _SAFE = {"len": len, "ord": ord, "bytes": bytes, "int": int, "min": min, "max": 
          "isinstance": None}
 
 
+class SelfRef:
+    """the value of the name ``self`` inside the model"""
+    def __repr__(self):
+        return "<self>"
+
+
+SELF = SelfRef()
+
+
+class BoundRef:
+    """``self.name`` taken as a value (a bound method handed around / yielded / stored in a local)"""
+    def __init__(self, name):
+        self.name = name
+
+    def __repr__(self):
+        return f"<bound method {self.name}>"
+
+    def __eq__(self, other):
+        return isinstance(other, BoundRef) and other.name == self.name
+
+    def __hash__(self):
+        return hash(("BoundRef", self.name))
+
+
+class FuncRef:
+    """a function of the class taken as a value from a class-level table (called with an explicit self)"""
+    def __init__(self, func):
+        self.func = func
+
+    def __repr__(self):
+        return f"<function {self.func.name}>"
+
+
 class MiniInterp:
     """Evaluates the statements of one extracted function over concrete values.  ``self.x`` reads/writes go
     to ``attrs``; ``self.m(...)`` calls go to ``hooks[m](*args)`` (args that cannot be evaluated are passed as
@@ -382,11 +415,58 @@ class MiniInterp:
     def call(self, *args):
         names = [a.arg for a in self.func.args.args][1:]
         self.loc = dict(zip(names, args))
+        is_gen = any(isinstance(x, (ast.Yield, ast.YieldFrom)) for x in walk_local(self.func))
+        self._yielded = []
         try:
             self._block(self.func.body)
         except ModelReturn as r:
-            return r.args[0] if r.args else None
+            if not is_gen:
+                return r.args[0] if r.args else None
+        if is_gen:
+            # a generator function is run to its end and its values are handed out afterwards: the same values in the same order; the
+            # interleaving of the generator's own steps with its consumer's is not modelled
+            return iter(self._yielded)
         return None
+
+    # values that stand for callables of the modelled class
+    def class_attr(self, name):
+        """value of a class-level attribute read through self (overridden by models that know the class)"""
+        raise ModelError(f"AttributeError: {name}")
+
+    def invoke_self(self, name, args):
+        if name in self.hooks:
+            return self.hooks[name](*args)
+        h = self.resolver(name) if self.resolver is not None else None
+        if h is None or self.depth > 20:
+            raise AnalysisError(f"model: call self.{name}() has no hook")
+        sub = type(self).__new__(type(self))
+        sub.__dict__.update(self.__dict__)
+        MiniInterp.__init__(sub, h, self.attrs, self.hooks, self.consts, self.loop_bound, self.resolver, self.depth + 1)
+        return sub.call(*args)
+
+    def invoke_value(self, fv, args):
+        if isinstance(fv, BoundRef):
+            return self.invoke_self(fv.name, args)
+        if isinstance(fv, FuncRef):
+            if not args or args[0] is not SELF:
+                raise AnalysisError("model: class function called without self")
+            sub = type(self).__new__(type(self))
+            sub.__dict__.update(self.__dict__)
+            MiniInterp.__init__(sub, fv.func, self.attrs, self.hooks, self.consts, self.loop_bound, self.resolver, self.depth + 1)
+            return sub.call(*args[1:])
+        raise AnalysisError(f"model: call of a value of type {type(fv).__name__}")
+
+    def _args(self, call):
+        out = []
+        for a in call.args:
+            if isinstance(a, ast.Starred):
+                try:
+                    out.extend(list(self.ev(a.value)))
+                except TypeError as e:
+                    raise ModelError(f"TypeError: {e}")
+            else:
+                out.append(self.ev(a))
+        return out
 
     # -- expressions
     def ev(self, n):
@@ -401,16 +481,23 @@ class MiniInterp:
                 return {"True": True, "False": False, "None": None}[n.id]
             if n.id in self._locals_of_func():
                 raise ModelError(f"UnboundLocalError: {n.id}")
+            if n.id == "self":
+                return SELF
             raise AnalysisError(f"model: unknown name {n.id}")
         if isinstance(n, ast.Attribute):
             if isinstance(n.value, ast.Name) and n.value.id == "self":
                 if n.attr in self.attrs:
                     return self.attrs[n.attr]
-                raise ModelError(f"AttributeError: {n.attr}")
+                return self.class_attr(n.attr)
             raise AnalysisError(f"model: attribute {src(n)[:50]}")
         if isinstance(n, (ast.Tuple, ast.List)):
             vals = [self.ev(e) for e in n.elts]
             return tuple(vals) if isinstance(n, ast.Tuple) else vals
+        if isinstance(n, ast.Dict) and all(k is not None for k in n.keys):
+            try:
+                return {self.ev(k): self.ev(v) for k, v in zip(n.keys, n.values)}
+            except TypeError as e:
+                raise ModelError(f"TypeError: {e}")
         if isinstance(n, ast.UnaryOp):
             v = self.ev(n.operand)
             if isinstance(n.op, ast.Not):
@@ -471,6 +558,11 @@ class MiniInterp:
                 return v[self.ev(n.slice)]
             except (IndexError, KeyError, TypeError) as e:
                 raise ModelError(f"{type(e).__name__}: {e}")
+        if isinstance(n, ast.Yield):
+            self._yielded.append(self.ev(n.value) if n.value is not None else None)
+            return None
+        if isinstance(n, ast.Call) and not n.keywords and isinstance(n.func, ast.Name) and isinstance(self.loc.get(n.func.id), (BoundRef, FuncRef)):
+            return self.invoke_value(self.loc[n.func.id], self._args(n))
         if isinstance(n, ast.Call):
             f = n.func
             if isinstance(f, ast.Attribute) and isinstance(f.value, ast.Name) and f.value.id == "self":
@@ -515,7 +607,12 @@ class MiniInterp:
                     raise ModelError(f"{type(e).__name__}: {e}")
             if isinstance(f, ast.Attribute):
                 recv = self.ev(f.value)
-                args = [self.ev(a) for a in n.args]
+                args = self._args(n)
+                if isinstance(recv, dict) and f.attr in ("get", "keys", "values", "items", "copy"):
+                    try:
+                        return getattr(recv, f.attr)(*args)
+                    except TypeError as e:
+                        raise ModelError(f"TypeError: {e}")
                 if isinstance(recv, (bytes, str)) and f.attr in _BYTES_METHODS or isinstance(recv, (list, tuple)) and f.attr in _LIST_METHODS:
                     try:
                         return getattr(recv, f.attr)(*args)
@@ -665,13 +762,15 @@ class Normaliser:
         ``sequence = IAC + DO + option``) are replaced by that expression.
     Rules written against the direct shape then read refactored code the same way.  ``known`` = names never inlined."""
 
-    def __init__(self, mod, cls_names, known, subscripts: bool = True, presplit: bool = False):
-        from sa.props._lib_d import Inliner
+    def __init__(self, mod, cls_names, known, subscripts: bool = True, presplit: bool = False, const_dispatch: bool = False):
+        from sa.props._lib_h_d import Inliner
         from sa.source import methods as _methods
         public = {n for c in mod.classes() if c.name in cls_names for n in _methods(c) if not n.startswith("_") or n.startswith("__")}
         self.inl = Inliner(mod, cls_names, set(known) | public)      # only private helpers are ever expanded
         self.subscripts = subscripts
         self.presplit = presplit
+        self.expanded_cms: set = set()         # private @contextmanager methods read at their `with` sites
+        self.const_dispatch = const_dispatch   # unroll `for x in (<constants>)`, read getattr(o, "name") as o.name (selection by name / by constant)
         self._views: Dict[int, ast.AST] = {}
         self._n = 0
 
@@ -682,12 +781,18 @@ class Normaliser:
         v = self._views.get(id(func))
         if v is not None:
             return v
-        from sa.props._lib_d import _clone
+        from sa.props._lib_h_d import _clone
         v = _clone(func)
+        v.body = self._expand_cms(v.body)
         if self.presplit:
             v.body = self._presplit(v.body, v)
         v.body = self._hoist_block(v.body)
         v.body = self.inl._stmts(v.body, 0)
+        self._expand_minmax(v)
+        v.body = self._loops_over_comprehensions(v.body, v)
+        if self.const_dispatch:
+            v.body = self._unroll_const_loops(v.body)
+            self._fold_getattr(v)
         for _ in range(4):
             if not self._subst_once(v):
                 break
@@ -698,6 +803,157 @@ class Normaliser:
         v._parent = getattr(func, "_parent", None)  # type: ignore[attr-defined]
         self._views[id(func)] = v
         return v
+
+    # -- `with self._cm(args) [as x]: body` over a private @contextmanager generator of the class is read as
+    #    entry; x = <yielded>; try: body; finally: exit   (the generator's locals renamed)
+    def _expand_cms(self, stmts):
+        from sa.props._lib_h_d import _clone
+        out = []
+        for st in stmts:
+            for field in ("body", "orelse", "finalbody"):
+                if isinstance(getattr(st, field, None), list) and not isinstance(st, (ast.FunctionDef, ast.AsyncFunctionDef, ast.ClassDef)):
+                    setattr(st, field, self._expand_cms(getattr(st, field)))
+            for h in getattr(st, "handlers", []) or []:
+                h.body = self._expand_cms(h.body)
+            new = None
+            if isinstance(st, ast.With) and len(st.items) == 1 and isinstance(st.items[0].context_expr, ast.Call):
+                call = st.items[0].context_expr
+                if isinstance(call.func, ast.Attribute) and isinstance(call.func.value, ast.Name) and call.func.value.id == "self" and not call.keywords:
+                    h = self.inl._lookup(call.func.attr)
+                    if h is not None and any((dotted(d) or "").split(".")[-1] == "contextmanager" for d in h.decorator_list) \
+                            and len(h.args.args) - 1 == len(call.args) and all(pure_expr(a) for a in call.args):
+                        split = split_contextmanager(h)
+                        if split is not None:
+                            pre, yv, post = split
+                            params = dict(zip([a.arg for a in h.args.args[1:]], call.args))
+                            stored = {x.id for b_ in pre + post for x in ast.walk(b_) if isinstance(x, ast.Name) and isinstance(x.ctx, ast.Store)}
+                            if not (stored & set(params)):
+                                class R(ast.NodeTransformer):
+                                    def visit_Name(self_, node):
+                                        if node.id in params and isinstance(node.ctx, ast.Load):
+                                            return ast.copy_location(_clone(params[node.id]), node)
+                                        if node.id in stored:
+                                            return ast.copy_location(ast.Name(id=node.id + "__cm", ctx=node.ctx), node)
+                                        return node
+                                new = [R().visit(_clone(b_)) for b_ in pre]
+                                if st.items[0].optional_vars is not None:
+                                    new.append(ast.Assign(targets=[st.items[0].optional_vars], value=R().visit(_clone(yv)) if yv is not None else ast.Constant(value=None), lineno=st.lineno))
+                                new.append(ast.Try(body=st.body, handlers=[], orelse=[], finalbody=[R().visit(_clone(b_)) for b_ in post] or [ast.Pass()]))
+                                for n_ in new:
+                                    ast.copy_location(n_, st)
+                                    ast.fix_missing_locations(n_)
+                                self.expanded_cms.add(call.func.attr)
+            out.extend(new if new is not None else [st])
+        return out
+
+    # -- x > min(a, b)  ==  x > a or x > b   (and the other seven combinations): a comparison against a min / max of pure operands is the
+    #    conjunction / disjunction of the single comparisons
+    def _expand_minmax(self, f):
+        from sa.props._lib_h_d import _clone
+        FLIP = {ast.Gt: ast.Lt, ast.GtE: ast.LtE, ast.Lt: ast.Gt, ast.LtE: ast.GtE}
+
+        class M(ast.NodeTransformer):
+            def visit_Compare(self_, node):
+                self_.generic_visit(node)
+                if len(node.ops) != 1 or type(node.ops[0]) not in FLIP:
+                    return node
+                l, r, op = node.left, node.comparators[0], node.ops[0]
+
+                def mm(e):
+                    return isinstance(e, ast.Call) and isinstance(e.func, ast.Name) and e.func.id in ("min", "max") and len(e.args) >= 2 and not e.keywords \
+                        and all(pure_expr(a) for a in e.args)
+                if mm(l) and not mm(r) and pure_expr(r):
+                    l, r, op = r, l, FLIP[type(op)]()
+                if not (mm(r) and pure_expr(l)):
+                    return node
+                # x OP min(..): '>'/'>=' hold iff they hold for SOME operand, '<'/'<=' iff for ALL; for max the other way round
+                some = isinstance(op, (ast.Gt, ast.GtE)) == (r.func.id == "min")
+                parts = [ast.Compare(left=_clone(l), ops=[type(op)()], comparators=[_clone(a)]) for a in r.args]
+                return ast.copy_location(ast.fix_missing_locations(ast.BoolOp(op=ast.Or() if some else ast.And(), values=parts)), node)
+        M().visit(f)
+        ast.fix_missing_locations(f)
+
+    # -- `for x in (E for y in IT): body`  ==  `for y in IT: x = E; body`  (also when the comprehension was first bound to a local used only there)
+    def _loops_over_comprehensions(self, stmts, func):
+        out = []
+        for i, st in enumerate(stmts):
+            for field in ("body", "orelse", "finalbody"):
+                if isinstance(getattr(st, field, None), list) and not isinstance(st, (ast.FunctionDef, ast.AsyncFunctionDef, ast.ClassDef)):
+                    setattr(st, field, self._loops_over_comprehensions(getattr(st, field), func))
+            for h in getattr(st, "handlers", []) or []:
+                h.body = self._loops_over_comprehensions(h.body, func)
+            if isinstance(st, ast.For) and not st.orelse:
+                comp = st.iter
+                drop = None
+                if isinstance(comp, ast.Name):
+                    defs = [x for x in ast.walk(func) if isinstance(x, ast.Assign) and any(isinstance(t, ast.Name) and t.id == comp.id for t in x.targets)]
+                    uses = [x for x in ast.walk(func) if isinstance(x, ast.Name) and x.id == comp.id and isinstance(x.ctx, ast.Load)]
+                    if len(defs) == 1 and len(uses) == 1 and out and out[-1] is defs[0]:
+                        drop, comp = defs[0], defs[0].value
+                if isinstance(comp, (ast.GeneratorExp, ast.ListComp)) and len(comp.generators) == 1 and not comp.generators[0].ifs and not comp.generators[0].is_async:
+                    gen = comp.generators[0]
+                    if drop is not None:
+                        out.pop()
+                    bind = ast.copy_location(ast.Assign(targets=[st.target], value=comp.elt, lineno=st.lineno), st)
+                    new = ast.copy_location(ast.For(target=gen.target, iter=gen.iter, body=[bind] + st.body, orelse=[]), st)
+                    out.append(ast.fix_missing_locations(new))
+                    continue
+            out.append(st)
+        return out
+
+    # -- selection by constant: loops over a short tuple of constants are unrolled (their locals renamed per round, `if c: continue` read as a guard
+    #    around the rest of the body); getattr(o, "name") with a constant name is the attribute o.name
+    def _unroll_const_loops(self, stmts):
+        from sa.props._lib_h_d import _clone
+        out = []
+        for st in stmts:
+            for field in ("body", "orelse", "finalbody"):
+                if isinstance(getattr(st, field, None), list) and not isinstance(st, (ast.FunctionDef, ast.AsyncFunctionDef, ast.ClassDef)):
+                    setattr(st, field, self._unroll_const_loops(getattr(st, field)))
+            for h in getattr(st, "handlers", []) or []:
+                h.body = self._unroll_const_loops(h.body)
+            if isinstance(st, ast.For) and isinstance(st.target, ast.Name) and isinstance(st.iter, (ast.Tuple, ast.List)) and 1 <= len(st.iter.elts) <= 4 \
+                    and all(isinstance(e, ast.Constant) for e in st.iter.elts) and not st.orelse \
+                    and not any(isinstance(x, ast.Break) for x in ast.walk(st)) and self._guard_continues(st.body) is not None:
+                body = self._guard_continues(st.body)
+                stored = {x.id for b_ in body for x in ast.walk(b_) if isinstance(x, ast.Name) and isinstance(x.ctx, ast.Store)} - {st.target.id}
+                for k, e in enumerate(st.iter.elts):
+                    class R(ast.NodeTransformer):
+                        def visit_Name(self_, node):
+                            if node.id == st.target.id and isinstance(node.ctx, ast.Load):
+                                return ast.copy_location(ast.Constant(value=e.value), node)
+                            if node.id in stored:
+                                return ast.copy_location(ast.Name(id=f"{node.id}__{k}", ctx=node.ctx), node)
+                            return node
+                    for b_ in body:
+                        out.append(ast.fix_missing_locations(R().visit(_clone(b_))))
+                continue
+            out.append(st)
+        return out
+
+    def _guard_continues(self, body):
+        """the loop body with `if c: continue` (as a whole statement) turned into `if not c: <rest>`; None when a continue sits elsewhere"""
+        for i, st in enumerate(body):
+            if isinstance(st, ast.If) and len(st.body) == 1 and isinstance(st.body[0], ast.Continue) and not st.orelse:
+                rest = self._guard_continues(body[i + 1:])
+                if rest is None:
+                    return None
+                guard = ast.copy_location(ast.If(test=ast.UnaryOp(op=ast.Not(), operand=st.test), body=rest or [ast.Pass()], orelse=[]), st)
+                return list(body[:i]) + [ast.fix_missing_locations(guard)]
+            if any(isinstance(x, ast.Continue) for x in ast.walk(st)):
+                return None
+        return list(body)
+
+    def _fold_getattr(self, f):
+        class G(ast.NodeTransformer):
+            def visit_Call(self_, node):
+                self_.generic_visit(node)
+                if isinstance(node.func, ast.Name) and node.func.id == "getattr" and len(node.args) == 2 and not node.keywords \
+                        and isinstance(node.args[1], ast.Constant) and isinstance(node.args[1].value, str) and node.args[1].value.isidentifier():
+                    return ast.copy_location(ast.Attribute(value=node.args[0], attr=node.args[1].value, ctx=ast.Load()), node)
+                return node
+        G().visit(f)
+        ast.fix_missing_locations(f)
 
     # -- (0) `a, b = x, y` -> `a = x; b = y` when no target is read by a later element; a boolean temporary that is
     #        tested by the immediately following `if` (and used nowhere else) is put back into the test
@@ -793,16 +1049,31 @@ class Normaliser:
     @staticmethod
     def _free_names_settled(f, assign, free, params) -> bool:
         """every (re)binding of a name used in the aliased expression happens before the alias is defined, and not in a loop around it"""
-        pos = (assign.lineno, assign.col_offset)
+        # textual order of the working copy (line numbers are unreliable once helpers / context managers were expanded into it)
+        order = {}
+
+        def number(node):
+            order[id(node)] = len(order)
+            for ch in ast.iter_child_nodes(node):
+                number(ch)
+        number(f)
+        pos = order[id(assign)]
         loops = []
         n = getattr(assign, "_parent", None)
         # parents are not set on the working copy: find enclosing loops by containment
         for lp in ast.walk(f):
             if isinstance(lp, (ast.For, ast.While)) and any(x is assign for x in ast.walk(lp)):
                 loops.append(lp)
+        alias = assign.targets[0].id if isinstance(assign.targets[0], ast.Name) else None
         for x in ast.walk(f):
             if isinstance(x, ast.Name) and x.id in free and isinstance(x.ctx, (ast.Store, ast.Del)):
-                if (x.lineno, x.col_offset) >= pos:
+                # the variable of a for-loop around the alias is bound at the head of every round, before the alias of that round is defined:
+                # fine as long as the alias is not read outside that loop
+                heads = [lp for lp in loops if isinstance(lp, ast.For) and any(y is x for y in ast.walk(lp.target))]
+                if heads and alias is not None and all(any(u is y for y in ast.walk(heads[0])) for u in ast.walk(f)
+                                                       if isinstance(u, ast.Name) and u.id == alias and isinstance(u.ctx, ast.Load)):
+                    continue
+                if order[id(x)] >= pos:
                     return False
                 if any(any(y is x for y in ast.walk(lp)) for lp in loops):
                     return False
@@ -835,7 +1106,7 @@ class Normaliser:
                 drop.add(id(n))
         if not table:
             return False
-        from sa.props._lib_d import _clone
+        from sa.props._lib_h_d import _clone
 
         class S(ast.NodeTransformer):
             def visit_Name(self, node):
@@ -858,7 +1129,7 @@ class Normaliser:
 
 def _make_xvm():
     import struct as _struct
-    from sa.props._lib_d import MiniVM, VMBound, VMClass, VMError, VMFunc, VMStub
+    from sa.props._lib_h_d import MiniVM, VMBound, VMClass, VMError, VMFunc, VMStub
 
     class CodeStub(VMStub):
         def __init__(self, argcount):
@@ -895,7 +1166,7 @@ def _make_xvm():
 
         def module(self, module):
             """another repository module interpreted by this VM (for `from pkg import mod` imports): a VMModule with the same extra builtins"""
-            from sa.props._lib_d import VMModule
+            from sa.props._lib_h_d import VMModule
             m = VMModule(module, self)
             m._g.update(self._extra)
             return m
@@ -927,7 +1198,7 @@ def _make_xvm():
 
         def call(self, fn, args, kwargs):
             if getattr(fn, "__self__", None) in (int, bytes, str, dict, bytearray) and not isinstance(fn, type):
-                from sa.props._lib_d import VMObj as _VMObj, VMRaise_native as _raise
+                from sa.props._lib_h_d import VMObj as _VMObj, VMRaise_native as _raise
                 if any(isinstance(a, _VMObj) for a in args):
                     raise VMError("interpreted object passed to a builtin constructor method")
                 try:
@@ -940,13 +1211,13 @@ def _make_xvm():
                 try:
                     return fn(*args, **kwargs)
                 except _struct.error as e:
-                    from sa.props._lib_d import VMRaise_native
+                    from sa.props._lib_h_d import VMRaise_native
                     raise VMRaise_native(e)
             return MiniVM.call(self, fn, args, kwargs)
 
         def _run_star(self, func, args, kwargs):
             """functions with *args / **kwargs parameters"""
-            from sa.props._lib_d import VMRaise_native, _Ret
+            from sa.props._lib_h_d import VMRaise_native, _Ret
             node = func.node
             a = node.args
             if a.kwonlyargs or a.posonlyargs:
@@ -1024,9 +1295,81 @@ def _make_xvm():
                     if all(self.truth(self.eval(c, local, mod, owner)) for c in gen.ifs):
                         out[self.eval(e.key, local, mod, owner)] = self.eval(e.value, local, mod, owner)
                 return out
+            if isinstance(e, ast.GeneratorExp):
+                v = MiniVM._eval(self, e, env, mod, owner)      # evaluated eagerly by the base interpreter; handed out as a one-shot iterator as at run time
+                return iter(v) if isinstance(v, (list, tuple)) else v
+            if isinstance(e, ast.NamedExpr) and isinstance(e.target, ast.Name):
+                v = self.eval(e.value, env, mod, owner)
+                self.assign(e.target, v, env, mod, owner)
+                return v
+            if isinstance(e, ast.Call) and isinstance(e.func, ast.Name) and e.func.id == "next" and "next" not in env and 1 <= len(e.args) <= 2 and not e.keywords:
+                it = self.eval(e.args[0], env, mod, owner)
+                try:
+                    return next(it)
+                except StopIteration:
+                    if len(e.args) == 2:
+                        return self.eval(e.args[1], env, mod, owner)
+                    from sa.props._lib_h_d import VMRaise_native
+                    raise VMRaise_native(StopIteration())
+                except TypeError as ex:
+                    from sa.props._lib_h_d import VMRaise_native
+                    raise VMRaise_native(ex)
             return MiniVM._eval(self, e, env, mod, owner)
 
+        def stmt(self, st, env, mod, owner):
+            # `with self._cm(args) as x:` over a @contextmanager generator method of the interpreted code: the part of the generator before its
+            # single yield is the entry, the yielded value the target, the part after it (its `finally`) the exit - run around the block
+            if isinstance(st, ast.With) and len(st.items) == 1 and isinstance(st.items[0].context_expr, ast.Call):
+                call = st.items[0].context_expr
+                try:
+                    fv = self.eval(call.func, env, mod, owner)
+                except Exception:
+                    fv = None
+                fn = fv.func if isinstance(fv, VMBound) else fv if isinstance(fv, VMFunc) else None
+                if fn is not None and any((dotted(d) or "").split(".")[-1] == "contextmanager" for d in getattr(fn.node, "decorator_list", [])):
+                    split = split_contextmanager(fn.node)
+                    if split is None:
+                        raise VMError(f"context manager {fn.node.name}: not `entry; [try:] yield v [finally: exit]`")
+                    pre, yv, post = split
+                    names = [a.arg for a in fn.node.args.args]
+                    args = ([fv.obj] if isinstance(fv, VMBound) else []) + [self.eval(a, env, mod, owner) for a in call.args]
+                    if call.keywords or len(args) != len(names):
+                        raise VMError(f"context manager {fn.node.name}: call outside the subset")
+                    cenv = dict(zip(names, args))
+                    self.block(pre, cenv, fn.mod, fn.owner)
+                    val = self.eval(yv, cenv, fn.mod, fn.owner) if yv is not None else None
+                    if st.items[0].optional_vars is not None:
+                        self.assign(st.items[0].optional_vars, val, env, mod, owner)
+                    try:
+                        self.block(st.body, env, mod, owner)
+                    finally:
+                        self.block(post, cenv, fn.mod, fn.owner)
+                    return None
+            return MiniVM.stmt(self, st, env, mod, owner)
+
     return XVM
+
+
+def split_contextmanager(fn):
+    """(entry statements, yielded expression, exit statements) of a generator written as ``entry...; try: yield v; finally: exit...`` or
+    ``entry...; yield v; exit...`` (the shape contextlib.contextmanager expects); None otherwise"""
+    body = [st for st in fn.body if not (isinstance(st, ast.Expr) and isinstance(st.value, ast.Constant))]
+    ys = [x for x in walk_local(fn) if isinstance(x, (ast.Yield, ast.YieldFrom))]
+    if len(ys) != 1 or not isinstance(ys[0], ast.Yield):
+        return None
+    for i, st in enumerate(body):
+        if isinstance(st, ast.Expr) and st.value is ys[0]:
+            if any(isinstance(x, ast.Return) for b in body for x in ast.walk(b)):
+                return None
+            return body[:i], ys[0].value, body[i + 1:]
+        if isinstance(st, ast.Try) and not st.handlers and not st.orelse and len(st.body) == 1 and isinstance(st.body[0], ast.Expr) and st.body[0].value is ys[0] \
+                and i == len(body) - 1:
+            if any(isinstance(x, ast.Return) for b in body for x in ast.walk(b)):
+                return None
+            return body[:i], ys[0].value, list(st.finalbody)
+        if any(x is ys[0] for x in ast.walk(st)):
+            return None
+    return None
 
 
 def xvm(module, hooks=None, budget=4 * 10 ** 7, siblings=None):
